@@ -12,7 +12,7 @@ import json
 import common
 from common import run_cmds, run_tlc_many
 
-FAMS = ["ops", "expr", "postfix", "keyword", "object", "array", "misc"]
+FAMS = ["ops", "chains", "expr", "postfix", "keyword", "object", "array", "misc"]
 LEX = ["dq", "sq", "vdq", "vsq", "num", "block"]
 
 
